@@ -370,7 +370,7 @@ func (g *Gen) zero(t types.Type) string {
 		}
 		return g.mkStruct(t, fs)
 	case *types.Array:
-		return fmt.Sprintf("((as const %s) %s)", g.sortOf(t), g.zero(u.Elem()))
+		return g.constArray(g.sortOf(t), g.idxSort(), g.zero(u.Elem()))
 	}
 	return "0"
 }
